@@ -1,4 +1,5 @@
 import Bch.Drive.C09
+import Bch.Model.MerkleSelect
 namespace Bch.Drive.C10
 open Bch Bch.Drive Bch.Model Bch.Model.BloomTx
 
@@ -84,8 +85,12 @@ def run : Runner
       else
         let leaves := txs.map (·.id)
         let (msg, ixs) := Merkle.buildMsg comb leaves (fun i => idx.contains i) zero32
-        let one := s!"{natsTok ixs} {mmsgTok msg} {bits}"
-        s!"{idxTok} {bits} {one} {one} {extractTok msg}"
+        -- the two Go builders are two transcriptions (Model/Merkle.lean and the statement-by-statement
+        -- Model/MerkleSelect.lean `buildMsgBloom`, proved equal in C11_builders_agree): each is compared with its own
+        let (msgB, ixsB) := MerkleSelect.buildMsgBloom comb leaves (fun i => idx.contains i) zero32
+        let one := s!"{natsTok ixsB} {mmsgTok msgB} {bits}"
+        let two := s!"{natsTok ixs} {mmsgTok msg} {bits}"
+        s!"{idxTok} {bits} {one} {two} {extractTok msg}"
     let refAgree := sref.outOfFuel || (sortNats sref.matched == idx && C09.bitsTok sref.filter == bits)
     let quad := s.steps ≤ (txs.length + 1) * ((txs.foldl (fun a t => a + t.outs.length) 0) + 2)
     pure { model := s!"EXT {ext} RES {res}",
